@@ -1,5 +1,5 @@
 """C07 -- a constraint is declared entailed only when it can no longer be violated (history clause + status vocabulary)."""
-from ..rules import branching, engine, propagators, search
+from ..rules import branching, engine, model, propagators, search
 
 EXPLANATION = (
     "Static analysis of the history clause: the only writers of the enabled-constraints stack are cp_init (row 0 <- True), cp_put (row t+1 <- row t) and the propagation loop's entailment branch (flag of the popped propagator, at the level current at entry, only under status == PROP_ENTAILMENT); backtrack exposes the saved row untouched; every wake-up consults the row of the level current at that site; every return of every registered filtering function is one of the three PROP_* constants. Does not decide that an entailment guard implies the relation on the whole box."
@@ -11,6 +11,7 @@ def check(ctx, prog):
     ctx.rule("R-PUSH-POP")
     branching.check_choice_points(ctx, prog)
     propagators.rule_status_vocab(ctx, prog)
+    model.rule_constants(ctx, prog, want=("status",))
     propagators.rule_enforce_entail(ctx, prog)
     engine.rule_wakeup(ctx, prog)
     engine.rule_writeback(ctx, prog, want=("R-FLAGS-WRITERS",))
